@@ -14,6 +14,10 @@ for d in sorted(glob.glob(os.path.join(V, 'seeded', '*'))):
     needs = re.sub(r'\s+', ' ', needs).replace('`', '').replace('## ', '')
     needs = needs[:220] + ('…' if len(needs) > 220 else '')
     caught = m.get('caught_by', [])
-    caught = '; '.join(re.sub(r'\s+[0-9a-f]{8}\]?(?=[ )]|$)', '', re.sub(r'\s+\d+\s+', ' ', c)).replace('  ', ' ') for c in caught) or '—'
+    def tidy(c):
+        if re.match(r'^C\d\d (quick|thorough) \(\d+ ', c):
+            c = re.sub(r'\s+\d+\s+', ' ', c)  # keep the first count only
+        return re.sub(r'\s+[0-9a-f]{8}\]?(?=[ )]|$)', '', c).replace('  ', ' ')
+    caught = '; '.join(tidy(c) for c in caught) or '—'
     missed = ', '.join(m.get('not_caught_by', [])) or ''
     print(f"| `{name}` | {m.get('property','')} | {needs.replace('|','/')} | {caught.replace('|','/')} | {missed} |")
